@@ -117,8 +117,9 @@ def _solve_z3(smt2, timeout_ms, seed=0):
     return 'unknown', out
 
 
-def _race(smt2, timeout_s):
-    """z3-new and cvc5 CLIs side by side; first decisive answer wins"""
+def _race(smt2, timeout_s, absmt2=None):
+    """z3-new and cvc5 CLIs side by side (plus z3-new on the product-abstracted query, where only `unsat` is an
+    answer); first decisive answer wins"""
     d = tempfile.mkdtemp(prefix='vc-')
     p1 = os.path.join(d, 'q.smt2')
     wits = re.findall(r'\(declare-fun (wit![^ ]+) ', smt2)
@@ -137,6 +138,12 @@ def _race(smt2, timeout_s):
         'cvc5': subprocess.Popen(['/usr/bin/cvc5', '--tlimit=%d' % int(timeout_s * 1000), '--strings-exp', p2],
                                  stdout=subprocess.PIPE, stderr=subprocess.DEVNULL, text=True),
     }
+    p3 = os.path.join(d, 'a.smt2')
+    if absmt2:
+        with open(p3, 'w') as f:
+            f.write(absmt2.replace('(check-sat)', '') + "\n(check-sat)\n")
+        procs['z3abs'] = subprocess.Popen(['z3-new', '-smt2', '-T:%d' % int(timeout_s), p3], stdout=subprocess.PIPE,
+                                          stderr=subprocess.DEVNULL, text=True)
     answers = {}
     try:
         while procs and time.time() - t0 < timeout_s + 10:
@@ -147,13 +154,14 @@ def _race(smt2, timeout_s):
                     first = out.strip().split('\n')[0].strip() if out.strip() else 'unknown'
                     answers[nm] = (first if first in ('sat', 'unsat') else 'unknown', out)
                     del procs[nm]
-            if answers.get('z3', ('', ''))[0] in ('sat', 'unsat') or answers.get('cvc5', ('', ''))[0] == 'unsat':
+            if answers.get('z3', ('', ''))[0] in ('sat', 'unsat') or answers.get('cvc5', ('', ''))[0] == 'unsat' \
+                    or answers.get('z3abs', ('', ''))[0] == 'unsat':
                 break
             time.sleep(0.05)
     finally:
         for p in procs.values():
             p.kill()
-        for f in (p1, p2):
+        for f in (p1, p2, p3):
             try:
                 os.unlink(f)
             except OSError:
@@ -165,6 +173,8 @@ def _race(smt2, timeout_s):
         return 'error', {'msg': 'solvers disagree: z3=%s cvc5=%s' % (za, ca), 'time': dt}
     if za == 'unsat':
         return 'unsat', {'time': dt, 'backend': 'z3-new-cli'}
+    if answers.get('z3abs', ('', ''))[0] == 'unsat' and za != 'sat':
+        return 'unsat', {'time': dt, 'backend': 'z3-new-cli (nonlinear products abstracted by an uninterpreted function)'}
     if ca == 'unsat':
         return 'unsat', {'time': dt, 'backend': 'cvc5-1.0.3'}
     if za == 'sat':
@@ -197,7 +207,7 @@ def _worker(job):
                 return idx, r, info
         r, info = _solve_z3(smt2, first)
         if r == 'unknown' and timeout_ms > first:
-            r2, info2 = _race(smt2, (timeout_ms - first) / 1000.0)
+            r2, info2 = _race(smt2, (timeout_ms - first) / 1000.0, absmt2)
             info2['time'] = info2.get('time', 0) + info.get('time', 0)
             return idx, r2, info2
         return idx, r, info
